@@ -228,6 +228,10 @@ func TestVerif(t *testing.T) {
 		os.WriteFile(job.Out, out, 0644)
 	}()
 	go watchdog(20*time.Second, job.Status)
+	if msg := raceCanary(t); msg != "" {
+		res.Error = msg
+		return
+	}
 
 	if job.Replay != "" {
 		replayFile(t, &job, res)
@@ -313,7 +317,7 @@ func TestVerif(t *testing.T) {
 			}
 			seenViol[vk] = true
 			rp := Replay{Prop: job.Prop, Scenario: sc.Name, Violation: v, Seed: seed, Plan: plan, Choices: out.Choices, Faults: out.Faults}
-			if job.Minimise {
+			if job.Minimise && v.Class != "race" {
 				rp = minimise(t, sc, &job, rp)
 			}
 			// final run with tracing for the replay file
@@ -322,7 +326,7 @@ func TestVerif(t *testing.T) {
 			if len(rp.Trace) > 4000 {
 				rp.Trace = rp.Trace[len(rp.Trace)-4000:]
 			}
-			if !hasViolation(tr.Violations, v.Class) {
+			if !hasViolation(tr.Violations, v.Class) && v.Class != "race" {
 				rp.Note = "NON-REPLAYABLE in process: violation class did not recur on re-execution"
 			}
 			res.Violations = append(res.Violations, rp)
@@ -515,19 +519,27 @@ func minimise(t *testing.T, sc *Scenario, job *Job, rp Replay) Replay {
 // bubble runs f inside a fresh synctest bubble and recovers the end-of-bubble
 // deadlock panic caused by abandoned goroutines.
 func bubble(t *testing.T, f func()) (panicked interface{}) {
-	defer func() {
-		if r := recover(); r != nil {
-			s := fmt.Sprint(r)
-			if strings.Contains(s, "deadlock") && strings.Contains(s, "bubble") {
-				return
+	// The bubble runs on its own goroutine: when the race detector has fired,
+	// testing marks the bubble's inner test failed and synctest.Test calls
+	// t.FailNow(), which must not unwind the job loop.
+	done := make(chan struct{})
+	go func() {
+		defer close(done)
+		defer func() {
+			if r := recover(); r != nil {
+				s := fmt.Sprint(r)
+				if strings.Contains(s, "deadlock") && strings.Contains(s, "bubble") {
+					return
+				}
+				panicked = r
 			}
-			panicked = r
-		}
+		}()
+		synctest.Test(t, func(t *testing.T) {
+			f()
+		})
 	}()
-	synctest.Test(t, func(t *testing.T) {
-		f()
-	})
-	return nil
+	<-done
+	return panicked
 }
 
 func hash64(b []byte) uint64 {
